@@ -230,7 +230,7 @@ def gen_layout(rng, tname=None):
             return 3
         if it[0] == "bytes":
             return len(it[1])
-        if it[0] in ("assume", "phase", "dephase"):
+        if it[0] in ("assume", "phase", "dephase", "detour"):
             return 0
         return it[1]
     pos = [0]
@@ -268,6 +268,10 @@ def gen_layout(rng, tname=None):
         j = rng.randint(i + 1, len(out))
         out[j:j] = [("dephase",)]
         out[i:i] = [("phase", rng.choice([1, 3, 16, 255, 256, 4096, 2, 0x801]))]
+    if t.name == "8086" and rng.chance(0.3) and out:
+        # a visit to another segment in a SAVE / RESTORE frame: the code behind RESTORE carries on in CODE where it stopped
+        for _ in range(rng.randint(1, 2)):
+            out.insert(rng.randint(0, len(out)), ("detour", rng.choice(["data", "data", "io"]), rng.randint(1, 9)))
     lay = {"target": t.name, "org": org, "items": [list(x) if not isinstance(x, list) else x for x in out], "nlab": nlab}
     if rng.chance(0.15):
         # -Y: branch-range errors of a pass that is repeated anyway are thrown away instead of ending the run
@@ -322,6 +326,8 @@ def render(lay):
             L.append("\tphase %s+%d" % ("*" if t.name in ("6502", "65ce02", "6809", "68hc11", "68000") else "$", it[1]))
         elif k == "dephase":
             L.append("\tdephase")
+        elif k == "detour":
+            L.append("\tsave\n\tsegment %s\n\tdb %d dup (?)\n\trestore" % (it[1], it[2]))
     # reference table of every label
     for i in range(lay["nlab"]):
         L.append("\t%s %s" % (t.word, nm(i)))
@@ -386,6 +392,8 @@ def decode(lay, img):
             ph = it[1]  # PHASE *+n: execution address = load address + n until DEPHASE
         elif k == "dephase":
             ph = 0
+        elif k == "detour":
+            pass
         elif k == "dataref":
             w = it[2]
             refs.append((idx, "data word", val(rd(a, w)), it[1], a))
